@@ -81,6 +81,9 @@ def main():
     res.append(semantic('kernels2lean.py','k/m swapped in res',[(I,"res = value[k_list] * mult_table_vals * other_value[m_list]","res = value[m_list] * mult_table_vals * other_value[k_list]")]))
     res.append(semantic('kernels2lean.py','mask on wrong operand',[(I,"(value != 0.0)[k_list] & (other_value != 0.0)[m_list]","(value != 0.0)[m_list] & (other_value != 0.0)[k_list]")]))
     res.append(semantic('kernels2lean.py','res squared table value',[(I,"res = value[k_list] * mult_table_vals * other_value[m_list]","res = value[k_list] * mult_table_vals * mult_table_vals * other_value[m_list]")]))
+    res.append(semantic('kernels2lean.py','left matrix transposed',[(I,"intermed[j, i] += mult_table_vals[test_ind] * x[k]","intermed[i, j] += mult_table_vals[test_ind] * x[k]")]))
+    res.append(semantic('kernels2lean.py','left matrix reads x[i]',[(I,"intermed[j, i] += mult_table_vals[test_ind] * x[k]","intermed[j, i] += mult_table_vals[test_ind] * x[i]")]))
+    res.append(harmless('kernels2lean.py','left matrix factors commuted',[(I,"intermed[j, i] += mult_table_vals[test_ind] * x[k]","intermed[j, i] += x[k] * mult_table_vals[test_ind]")]))
     shutil.rmtree(SCR, ignore_errors=True)
     print("all as expected" if all(res) else "SOME UNEXPECTED")
     return 0 if all(res) else 1
